@@ -14,6 +14,18 @@ CHECKS = {
  "C03": ("exploration", "runtime monitor: differential oracle - library Verify verdict vs independent reference verdict (own Sig_structure from the same wire bytes + stdlib primitive) on mutated wire messages; forgery corollary monitor",
          "Every decodable mutant of validly signed messages of every kind (all single-bit flips of small messages, byte edits, structural faults, semantic edits, transplants across messages/contexts, ECDSA encodings, other external data/keys) gets the library verdict compared with the reference verdict in both directions. Held on the mutants executed.",
          "trusted: refcbor/refcose (self-test against conformance vectors), crypto/ecdsa, crypto/rsa, crypto/ed25519 verification primitives (shared with the library)", "DESIGN.md section 4 C03, appendix A.3"),
+ "C04": ("exploration", "runtime monitor: call log of spy Signer/Verifier + errors.Is on the returned error + independent parse of the recorded ToBeSigned and of the emitted message",
+         "The grid structure x alg-header kind x label spelling x key algorithm x external data x raw/parsed/decoded form is enumerated completely (about 170k sign/verify evaluations); in each cell the key call is either required and observed or forbidden and absent, mismatches must be ErrAlgorithmMismatch, and an injected alg must be inside the signed and the emitted protected bytes. Includes reuse of one Headers value through UnmarshalFromRaw.",
+         "trusted: refcbor parse of recorded bytes; raw protected bytes that disagree with the parsed map are outside the property", "DESIGN.md section 4 C04"),
+ "C10": ("exploration", "runtime monitor: recording spy Signer/Verifier vs reference Countersign_structure (byte equality) + real-key Verify verdicts on mutated parents + refusal grid",
+         "Structure bytes for 4 parent kinds x pointer/value x full/abbreviated x constructed/decoded/non-canonical parents are compared with the RFC 9338 reference; real-key countersignatures must survive changes of the parent's unprotected headers and must not survive any change of protected bytes, payload, signature, external data, nor replay as message signature or as the other countersignature form; unsigned/payload-less/unsupported parents must be refused.",
+         "trusted: refcose CountersignStructure (pinned by three cose-wg example structures), stdlib crypto; both sign_protected layouts of CounterSignature0 tolerated", "DESIGN.md section 4 C10"),
+ "C11": ("exploration", "runtime monitor: SignMessage Sign/Verify/Marshal/Unmarshal results vs reference conjunction per index computed from the wire bytes; positional spy verifiers; failing spy signers",
+         "For n = 1..6 signers with mixed real keys every subset of corrupted and of emptied signatures and every verifier arrangement (transpositions, rotation, missing, surplus, wrong key per index) is enumerated, constructed and decoded; library verdict must equal the reference verdict in both directions; spy verifiers must each see their own signer's Sig_structure; zero/empty signatures can be neither encoded nor decoded.",
+         "trusted: refcose/refcrypto reference verdict; signers are well-behaved (error or non-empty signature)", "DESIGN.md section 4 C11"),
+ "C20": ("fault_enumeration", "fault injection through the public API (fault-injecting Signer/Verifier/io.Reader implementations) + inspection of return values, message state and emitted bytes after every fault vector",
+         "Every assignment of {ok, error, error-with-bytes, empty signature} to each key call of all signing entry points (5^n vectors for COSE_Sign n<=4), of {ok, ErrVerification, other error} to each verifier call, and the 7 real built-in signers under failing/short/one-byte entropy readers are enumerated; an error must be returned, no bytes returned, nothing stored in the failing slot, nothing half-signed serialisable, no empty signature emitted, verifier errors propagated.",
+         "trusted: refcbor parse of emitted bytes; Go 1.23 stdlib consults the supplied entropy reader (measured: the monitor records reader calls)", "DESIGN.md section 4 C20"),
 }
 REASON_NOT_BUILT = "check not built yet in this round; no claim is made (see DESIGN.md build order)"
 
